@@ -67,19 +67,33 @@ func runReduce(a vc.Args) {
 	if nSeeds < 8 {
 		nSeeds = 8
 	}
+	// one trace = a group of consecutive layouts (fewer Reset events to validate); a trace is
+	// re-executable in isolation: its randomness is a function of (seed, group id) only
+	const group = 16
+	behs := vc.Behaviours(a.Behav)
 	id := 0
-	for _, raw := range vc.Behaviours(a.Behav) {
+	for g := 0; g < len(behs); g += group {
 		id++
 		if a.Only != 0 && a.Only != id {
 			rc.TraceID = id
 			continue
 		}
-		var lay layout
-		must(json.Unmarshal(raw, &lay))
+		end := g + group
+		if end > len(behs) {
+			end = len(behs)
+		}
+		var lays []layout
+		for _, raw := range behs[g:end] {
+			var lay layout
+			must(json.Unmarshal(raw, &lay))
+			lays = append(lays, lay)
+		}
 		r := vc.TraceRand(a.Seed, id)
 		rc.TraceID = id - 1
-		rc.Reset(rec.M{"family": "gov", "kind": "reduce", "id": id, "layout": lay, "seeds": nSeeds}, nil)
-		reduceLayout(rc, r, lay, nSeeds)
+		rc.Reset(rec.M{"family": "gov", "kind": "reduce", "id": id, "layouts": lays, "seeds": nSeeds}, nil)
+		for _, lay := range lays {
+			reduceLayout(rc, r, lay, nSeeds)
+		}
 	}
 }
 
